@@ -17,14 +17,26 @@ META = {
                   "edit exists exactly for each key removed/changed/added with the right kind and values and none for an "
                   "unchanged key; the rebuild reason names a functionEnvKeys entry iff the environments differ at it (all 2^9 "
                   "subsets swept in Coq and lifted). seq_replacements_carry_sides_refuted: a replace entry can be None (known "
-                  "finding). The model is tied to the code by comparing the complete diff tree (kinds, splits, payloads, nested "
+                  "finding). TOTALITY (no longer conditional on Ok): search_total (the O(NP) search returns a state or the "
+                  "EqualDepth depth error for every route-table size; S(length a) iterations of the p loop suffice), "
+                  "diff_slice_total (for every pair of sequences and every route-table size >= 1 diffSlice returns a script or "
+                  "the depth error, never Panic/OutOfFuel; the model's own fuel suffices: S(length routes) chain links, "
+                  "walk_fuel walker steps, S(|a|+|b|) compose rounds because a round stopped by a full table still moves the "
+                  "walker), route_size_zero_loops (the bound >= 1 is needed), diff_depth_total, diff_env_total (diffEnv's "
+                  "explicit panic is unreachable). SIZE: script_cost_identity (deleted+inserted + 2*kept = |a|+|b|, hence "
+                  "cost <= |a|+|b|); common_prefix_kept (table not exhausted: the script starts with a Common edit at least as "
+                  "long as the leading run the search finds equal). The model is tied to the code by comparing the complete diff tree (kinds, splits, payloads, nested "
                   "diffs, dict edit order, Old/New) on every pair of sequences over 3 letters up to length 4 (quick) / 5 "
                   "(thorough) as tuples, <=3/4 as lists, strings, bytes, mixed containers, nested tuples, dict pairs, depth-limit "
                   "cases, random longer sequences, and diffEnv on all subsets of the listed keys.",
     "level_note": "Trusted: Coq kernel; the Go harness's rendering of values and diffs; starlark's EqualDepth/Index/Slice are "
                   "modelled for None/int/string/bytes/tuple/list/dict only (no floats, sets, user types) and validated by the "
-                  "sweep. Theorems are conditional on the model returning Ok: Panic/OutOfFuel outcomes (never observed in the "
-                  "sweep; totality not proved) and EqualDepth depth errors are excluded by statement. Absence of None entries in "
+                  "sweep. The faithfulness theorems are stated for runs that return a script; the totality theorems show that every "
+                  "run returns a script or the EqualDepth depth error (route size >= 1). NOT proved: minimality of the script "
+                  "(cost = the O(NP) distance delta+2p when the table is not exhausted); the missing lemma is the "
+                  "furthest-point invariant of the search (no edit path with fewer than p deletions reaches the corner) plus "
+                  "the cost accounting of the route chain and the walker; a common suffix is not always a trailing Common "
+                  "edit (ex_suffix_not_trailing). Absence of None entries in "
                   "replace payloads holds only for minimal scripts (not proved; swept) and fails after route-table exhaustion "
                   "(known finding, shown on the real code by a crafted 1500x1700 pair). Pickle stamps in diffEnv are an input "
                   "(stamp_state). The multi-round part of the model was additionally validated once by a what-if run with "
